@@ -484,3 +484,87 @@ class GetTrace2d(GetTrace):
 for _w in ('none', 'both'):
     _cls = type('GetTrace2d_' + _w, (GetTrace2d,), dict(window=_w))
     register(_cls, 'read.py::SgzReader.get_trace', ['C02', 'C07', 'C09', 'C14'], ALL2, modes=('file',), tag='2d+win:' + _w)
+
+
+# ---------------------------------------------------------------------------------------------
+# diagonals (built from traces)
+
+class Diagonal(ReadContract):
+    """read_(anti)correlated_diagonal(id[, min_idx, max_idx][, min_sample_idx, max_sample_idx])"""
+    anti = False
+    sub = False          # trace sub-range given
+    win = False          # sample window given
+    loops = {1: L.IndependentWrites(witness=lambda idx, env: idx[0]), 2: L.IndependentWrites(witness=lambda idx, env: idx[0])}
+
+    def names(self):
+        p = 'ad' if self.anti else 'cd'
+        return p + '_id', 'min_' + p + '_idx', 'max_' + p + '_idx'
+
+    def inputs(self, c):
+        g, rd = self.reader(c)
+        idn, mn, mx = self.names()
+        d = dict(self=rd, _g=g)
+        d[idn] = c.sym_int('diag', name=idn)
+        d[mn] = c.sym_int('dlo', name=mn) if self.sub else None
+        d[mx] = c.sym_int('dhi', name=mx) if self.sub else None
+        d['min_sample_idx'] = c.sym_int('lo', name='min_sample_idx') if self.win else None
+        d['max_sample_idx'] = c.sym_int('hi', name='max_sample_idx') if self.win else None
+        return d
+
+    def full_len(self, g, a):
+        idn = self.names()[0]
+        return S.anti_diag_len(a[idn], g.nI, g.nX) if self.anti else S.corr_diag_len(a[idn], g.nI, g.nX)
+
+    def id_ok(self, g, a):
+        idn = self.names()[0]
+        if self.anti:
+            return in_range(a[idn], 0, sub(add(g.nI, g.nX), 1))
+        return And(gt(a[idn], sub(0, g.nX)), lt(a[idn], g.nI))
+
+    def ok(self, g, a):
+        idn, mn, mx = self.names()
+        conds = [self.id_ok(g, a)]
+        if self.sub:
+            conds += [ge(a[mn], 0), lt(a[mn], a[mx]), le(a[mx], self.full_len(g, a))]
+        if self.win:
+            conds += [ge(a['min_sample_idx'], 0), lt(a['min_sample_idx'], a['max_sample_idx']), le(a['max_sample_idx'], g.nZ)]
+        return And(*conds)
+
+    def raises(self, c, a):
+        g = a['self'].geo
+        if g.two_d:
+            return {WDE: True}
+        return {'IndexError': Not(self.ok(g, a))}
+
+    def coord(self, g, a, t):
+        """(inline, crossline) ordinals of the t-th trace of the full diagonal (spec: from the definition of the diagonals)"""
+        idn = self.names()[0]
+        d = a[idn]
+        if self.anti:
+            # points (i, x) with i + x = d, listed by increasing inline
+            i0 = Max(0, sub(d, sub(g.nX, 1)))
+            return add(i0, t), sub(d, add(i0, t))
+        # points with i - x = d, listed by increasing crossline
+        x0 = Max(0, sub(0, d))
+        return add(add(x0, t), d), add(x0, t)
+
+    def post(self, c, a, result):
+        g = a['self'].geo
+        idn, mn, mx = self.names()
+        t0 = a[mn] if self.sub else 0
+        n = sub(a[mx], a[mn]) if self.sub else self.full_len(g, a)
+        lo = a['min_sample_idx'] if self.win else 0
+        m = sub(a['max_sample_idx'], a['min_sample_idx']) if self.win else g.nZ
+        check_array(c, result, (n, m))
+        e = O.skolem_index(c, (n, m))
+        il, xl = self.coord(g, a, add(t0, e[0]))
+        c.ensure(And(in_range(il, 0, g.nI), in_range(xl, 0, g.nX)), 'spec_coordinate_in_cube')
+        c.ensure(result.fn(e) == O.Vpad(g, il, xl, add(lo, e[1])), 'elem')
+
+
+for _anti in (False, True):
+    for _sub in (False, True):
+        for _win in (False, True):
+            _cls = type(f'Diag_{int(_anti)}{int(_sub)}{int(_win)}', (Diagonal,), dict(anti=_anti, sub=_sub, win=_win))
+            register(_cls, 'read.py::SgzReader.read_' + ('anticorrelated' if _anti else 'correlated') + '_diagonal', ['C02', 'C14'],
+                     [CFG_DEFAULT[3], CFG_ZSLICE[0], CFG_NOT_DEFAULT_NOT_Z[0]], modes=('file',), tag=f'sub{int(_sub)}win{int(_win)}')
